@@ -54,6 +54,75 @@ def project_plain_trace(events, direction):
     return rows, len(ids)
 
 
+MUX_D_EVS = {"grpc.knock.sent", "grpc.knock.ack", "grpc.knock.timeout", "grpc.muxdial.opened", "grpc.getclientstream", "grpc.tw.deleted"}
+MUX_A_EVS = {"grpc.accept.slot", "grpc.accept.listener", "grpc.accept.lfk", "grpc.lfk.took", "grpc.lfk.accepted", "grpc.lfk.acked"}
+MUX_MUXER_EVS = {"h2p": {"smux.listener", "smux.acceptknock", "smux.accept.conn", "smux.route"}, "p2h": {"cmux.listener", "cmux.acceptknock", "bcl.unblocked"}}
+
+
+def project_mux_trace(events, direction, est_ids):
+    """The events of one direction of a multiplexed in-process pair as rows for TraceGRPCMuxImpl: ids of
+    that direction renumbered 1..k in the order their establishments start, the two Run loops' events
+    named by role (d.run.* on the dialer's side, a.run.* on the acceptor's). Pure projection."""
+    acc_side, dial_side = ("P", "H") if direction == "h2p" else ("H", "P")
+    mine = set(est_ids)
+    ids = {}
+
+    def rn(x):
+        if x not in ids:
+            ids[x] = len(ids) + 1
+        return ids[x]
+    rows = [{"ev": "reset", "a": 0, "b": 0, "t": 0}]
+    for e in events:
+        ev, a = e["ev"], e["a"]
+        if ev in DRV_EVS:
+            if e.get("dir") != direction:
+                continue
+            r = {"ev": ev, "a": rn(a), "b": 0, "t": e["t"]}
+            if ev == "ret.dial":
+                sb = e.get("served_by", -1)
+                r.update({"ok": bool(e.get("ok")), "served_by": -1 if sb == -1 else ids.get(sb, 999)})
+            rows.append(r)
+        elif ev in MUX_MUXER_EVS[direction]:
+            if a != 0 and a not in mine:
+                continue
+            rows.append({"ev": ev, "a": rn(a) if a != 0 else 0, "b": e["b"], "t": e["t"]})
+        elif a in mine and ((ev in MUX_D_EVS and e["obj"] == dial_side) or (ev in MUX_A_EVS and e["obj"] == acc_side)):
+            rows.append({"ev": ev, "a": rn(a), "b": e["b"], "t": e["t"]})
+        elif a in mine and ev in ("grpc.run.recv", "grpc.run.park") and e["obj"] in (dial_side, acc_side):
+            role = "d" if e["obj"] == dial_side else "a"
+            rows.append({"ev": role + ev[4:], "a": rn(a), "b": e["b"], "t": e["t"]})
+    rows.append({"ev": "end", "a": 0, "b": 0, "t": rows[-1]["t"]})
+    return rows, len(ids)
+
+
+def validate_mux_traces(obs, by, tag):
+    """Validates the event logs of the multiplexed in-process pairs in obs against GRPCMuxImpl.tla (per
+    direction; the late-accept histories with the non-strict configuration). Returns (accepted, {case: (dir, event, detail)}, events)."""
+    groups = {}
+    nev = 0
+    for name, o in obs.items():
+        evs = (o.get("out") or {}).get("events")
+        c = by.get(name)
+        if not evs or not o.get("mux") or o.get("pair") != "inproc" or c is None or not c.get("sequential"):
+            continue
+        late = str(c.get("fam", "")).startswith("late-accept")
+        for d in ("h2p", "p2h"):
+            est_ids = [e["id"] for e in c["ests"] if e["dir"] == d]
+            if not est_ids or len(est_ids) > 6:
+                continue
+            rows, k = project_mux_trace(evs, d, est_ids)
+            if len(rows) > 2:
+                groups.setdefault((d, late), []).append(("%s/%s" % (name, d), rows))
+                nev += len(rows)
+    ok_total, bad = 0, {}
+    for (d, late), packed in sorted(groups.items()):
+        ok, rejected, _ = vlib.validate_packed("TraceGRPCMuxImpl", "trace_grpcmuximpl_%s%s.cfg" % (d, "_late" if late else ""), packed, "%s.mtr.%s%s" % (tag, d, "l" if late else ""))
+        ok_total += ok
+        for n, ev, detail in rejected:
+            bad.setdefault(n.split("/")[0], (n.split("/")[1], ev, detail))
+    return ok_total, bad, nev
+
+
 def validate_plain_traces(obs, tag):
     """Validates the event logs of the plain in-process pairs in obs against GRPCPlainImpl.tla.
     Returns (number of (case, direction) traces accepted, {case name: (rejected event, detail)}, events validated)."""
@@ -75,6 +144,88 @@ def validate_plain_traces(obs, tag):
     for n, ev, detail in rejected:
         bad.setdefault(n.split("/")[0], (n.split("/")[1], ev, detail))
     return ok, bad, nev
+
+
+def mux_trace_selftest(obs_list, by, tag):
+    """Binding self-test for TraceGRPCMuxImpl: corrupted versions of an accepted trace must be rejected."""
+    total = 0
+    done = set()
+    for o in obs_list:
+        evs = (o.get("out") or {}).get("events")
+        c = by.get(o["name"])
+        if not evs or not o.get("mux") or o.get("pair") != "inproc" or c is None or str(c.get("fam", "")).startswith("late-accept") or c.get("hold"):
+            continue
+        for d in ("h2p", "p2h"):
+            if d in done:
+                continue
+            est_ids = [e["id"] for e in c["ests"] if e["dir"] == d]
+            rows, k = project_mux_trace(evs, d, est_ids)
+            names = [r["ev"] for r in rows]
+            if k < 2 or "grpc.knock.ack" not in names or not any(r["ev"] == "ret.dial" and r.get("ok") for r in rows):
+                continue
+            cfg = "trace_grpcmuximpl_%s.cfg" % d
+            path = os.path.join(vlib.sub("%s.mst.%s" % (tag, d)), "good.ndjson")
+            vlib.write_ndjson(path, rows)
+            if not vlib.validate_trace("TraceGRPCMuxImpl", cfg, path)["accepted"]:
+                continue
+
+            def first(rs, ev, **kw):
+                return next(i for i, r in enumerate(rs) if r["ev"] == ev and all(r.get(k_) == v for k_, v in kw.items()))
+
+            def ack_before_knock(rs):
+                i, j = first(rs, "a.run.recv"), first(rs, "grpc.lfk.acked")
+                e = rs.pop(j)
+                e["t"] = rs[i]["t"]
+                rs.insert(max(1, i - 2), e)
+                return rs
+
+            def no_registration(rs):
+                del rs[first(rs, "smux.listener" if d == "h2p" else "cmux.listener")]
+                return rs
+
+            def served_by_other(rs):
+                for r in rs:
+                    if r["ev"] == "ret.dial" and r.get("ok"):
+                        r["served_by"] = r["served_by"] % k + 1
+                        return rs
+                return None
+
+            def opened_without_ack(rs):
+                del rs[first(rs, "grpc.knock.ack")]
+                return rs
+
+            def ack_error_flag(rs):
+                i = first(rs, "grpc.knock.ack")
+                rs[i]["b"] = 1 - rs[i]["b"]
+                return rs
+
+            def routed_elsewhere(rs):
+                if d != "h2p":
+                    return None
+                i = first(rs, "smux.route", b=1)
+                rs[i]["a"] = rs[i]["a"] % k + 1
+                return rs
+
+            def slot_flag(rs):
+                i = first(rs, "grpc.getclientstream")
+                rs[i]["b"] = 1 - rs[i]["b"]
+                return rs
+
+            def second_id_overlaps(rs):
+                # the second establishment's dial starts before the first one is over (against the one-at-a-time discipline)
+                i1 = first(rs, "call.dial", a=1)
+                j = first(rs, "call.dial", a=2)
+                e = rs.pop(j)
+                e["t"] = rs[i1]["t"]
+                rs.insert(i1 + 1, e)
+                return rs
+            total += vlib.selftest_trace("TraceGRPCMuxImpl", cfg, path,
+                                         [("ack sent before the knock was received", ack_before_knock), ("listener registration removed", no_registration),
+                                          ("served by another id's listener", served_by_other), ("stream opened without an ack", opened_without_ack),
+                                          ("ack error flag flipped", ack_error_flag), ("stream routed to another id", routed_elsewhere),
+                                          ("slot-existed flag flipped", slot_flag), ("second dial overlaps the first", second_id_overlaps)], "%s.mst.%s" % (tag, d))
+            done.add(d)
+    return total
 
 
 def plain_trace_selftest(obs_list, tag):
@@ -148,7 +299,19 @@ def plain_trace_selftest(obs_list, tag):
 def run_and_judge(rep, cases, tag, prop, sigprefix, confirm=True):
     b = c02.build()
     env = {"VERIF_VPLUGIN": b["vplugin"], "VERIF_CASE_TIMEOUT_S": "150", "VERIF_WORKERS": "3"}
-    obs, crashes = vlib.run_cases(b["drivers"], "TestGRPCBrokerCases", cases, tag, env=env, shards=min(vlib.NCPU, max(1, len(cases) // 2)), timeout=2400)
+    # in-process pairs install a process-wide hook handler: they run in driver processes of their own, so that
+    # no event of another pair's host side ends up in their traces
+    inproc = [c for c in cases if c["pair"] == "inproc"]
+    procs = [c for c in cases if c["pair"] != "inproc"]
+
+    def part(args):
+        cs, t = args
+        if not cs:
+            return {}, {}
+        return vlib.run_cases(b["drivers"], "TestGRPCBrokerCases", cs, t, env=env, shards=min(vlib.NCPU // 2 or 1, max(1, len(cs) // 2)), timeout=2400)
+    (obs, crashes), (obs_p, crashes_p) = vlib.pmap(part, [(inproc, tag + "i"), (procs, tag + "p")], jobs=2)
+    obs.update(obs_p)
+    crashes.update(crashes_p)
     by = {c["name"]: c for c in cases}
     for name in vlib.hung_cases(obs):
         rep.violation("%s:hang" % sigprefix, "scenario did not finish: %s" % json.dumps(by[name])[:400], {"case": by[name], "dump": obs[name].get("dump", "")[:8000]})
@@ -166,6 +329,10 @@ def run_and_judge(rep, cases, tag, prop, sigprefix, confirm=True):
     tr_ok, tr_bad, tr_events = validate_plain_traces(obs, tag)
     rep.coverage["plain_broker_traces_validated"] = rep.coverage.get("plain_broker_traces_validated", 0) + tr_ok
     rep.coverage["plain_broker_trace_events"] = rep.coverage.get("plain_broker_trace_events", 0) + tr_events
+    mtr_ok, mtr_bad, mtr_events = validate_mux_traces(obs, by, tag)
+    rep.coverage["mux_broker_traces_validated"] = rep.coverage.get("mux_broker_traces_validated", 0) + mtr_ok
+    rep.coverage["mux_broker_trace_events"] = rep.coverage.get("mux_broker_trace_events", 0) + mtr_events
+    tr_bad.update(mtr_bad)
     dev += [n for n in tr_bad if n not in dev]
     tr_bad0 = dict(tr_bad)
     if dev and confirm:
@@ -184,6 +351,7 @@ def run_and_judge(rep, cases, tag, prop, sigprefix, confirm=True):
             _, d2 = vlib.judge_observations("TraceGRPCBroker", "trace_grpcbroker.cfg", ol2, tag + "c")
             dev2 = set(d2)
             _, tb2, _ = validate_plain_traces({o["name"]: o for o in ol2}, tag + "c")
+            tb2.update(validate_mux_traces({o["name"]: o for o in ol2}, by, tag + "c")[1])
             for n in list(tr_bad):
                 if n in obs2 and not obs2[n].get("hang") and n not in tb2:
                     del tr_bad[n]
@@ -204,11 +372,13 @@ def run_and_judge(rep, cases, tag, prop, sigprefix, confirm=True):
         if name in tr_bad:
             d, ev, detail = tr_bad[name]
             rep.violation("%s:trace:%s:%s" % (sigprefix, c.get("fam", ""), ev.get("ev")),
-                          "in-process plain pair, scenario family %s, direction %s: recorded event %s -- %s (GRPCPlainImpl.tla); establishments %s" % (
-                              c.get("fam", ""), d, json.dumps(ev), detail,
+                          "in-process %s pair, scenario family %s%s, direction %s: recorded event %s -- %s (%s); establishments %s" % (
+                              "multiplexed" if c.get("mux") else "plain", c.get("fam", ""), (", hold %s" % json.dumps(c["hold"])) if c.get("hold") else "", d, json.dumps(ev), detail,
+                              "GRPCMuxImpl.tla" if c.get("mux") else "GRPCPlainImpl.tla",
                               json.dumps([{k: e[k] for k in ("id", "dir", "order", "gap_ms", "nopeer", "dial_ok", "served_by", "err") if k in e} for e in o["out"].get("ests", [])])[:600]),
                           {"case": c, "observation": {k: v for k, v in o.items() if k != "out"} | {"out": {k: v for k, v in o["out"].items() if k != "events"}},
-                           "trace": project_plain_trace(o["out"].get("events") or [], d)[0][:400]})
+                           "trace": (project_mux_trace(o["out"].get("events") or [], d, [e["id"] for e in c["ests"] if e["dir"] == d]) if c.get("mux")
+                                     else project_plain_trace(o["out"].get("events") or [], d))[0][:600]})
             continue
         bad = [e for e in o["out"].get("ests", []) if not (e["main_ok"] and (e["served_by"] in (-1, e["id"])) and (e["dial_ok"] or e["nopeer"] or e["gap_ms"] >= 5000)
                                                               and (not e["keep"] or not e["dial_ok"] or e["kept_ok"]))]
